@@ -84,6 +84,35 @@ class Probe:
             self.s.close(c)
 
 
+ANCHOR = [b'0', b'-1', b'1', str(I64 - 1).encode(), str(-I64).encode()]
+
+
+def fillings(tmpl, pos, values):
+    """Argument vectors of a template: every position in turn ranges over `values` while the other numeric positions
+    hold each combination of anchor values (so LRANGE k 0 <max> and LRANGE k <min> -1 are both enumerated), plus the
+    same value at every position."""
+    if not pos:
+        return [list(tmpl)]
+    seen, out = set(), []
+    def add(assign):
+        a = [assign.get(i, x) if x is N else x for i, x in enumerate(tmpl)]
+        t = tuple(a)
+        if t not in seen:
+            seen.add(t)
+            out.append(a)
+    for v in values:
+        add({p: v for p in pos})
+    if len(pos) > 1:
+        for p in pos:
+            others = [q for q in pos if q != p]
+            for combo in itertools.product(ANCHOR, repeat=len(others)):
+                for v in values:
+                    d = dict(zip(others, combo))
+                    d[p] = v
+                    add(d)
+    return out
+
+
 def hostile_commands(ctx, srv, tr, pr):
     rnd = ctx.rnd
     cases = 0
@@ -92,13 +121,13 @@ def hostile_commands(ctx, srv, tr, pr):
     for tmpl, pos in CMDS:
         values = BOUND if pos else [b'']
         for ty in TYPES:
-            for v in (values if not ctx.quick else [x for i, x in enumerate(values) if i % 3 == cases % 3 or len(x) > 18 or x in (b'nan', b'1e308', b'')]):
+            vs = values if not ctx.quick else [x for i, x in enumerate(values) if i % 3 == cases % 3 or len(x) > 18 or x in (b'nan', b'1e308', b'') or x in ANCHOR]
+            for argv in fillings(tmpl, pos, vs):
                 if cl is None or cl.closed:
                     cl = Client(srv.port, timeout=3.0)
                     cl.call([b'DEL', K], 3.0)
                     if ty:
                         cl.call(ty, 3.0)
-                argv = [v if x is N else x for x in tmpl]
                 name = argv[0].upper()
                 r = cl.call(argv, 1.5 if name in (b'BLPOP', b'BRPOP') else 5.0)
                 tr.emit({'k': 'hostile', 'argv': [list(a[:80]) for a in argv], 'r': resp.to_json(r) if r[0] != 'arr' else {'t': 'arr', 'v': []}})
